@@ -84,6 +84,33 @@ func shapeList() []shapeCtor {
 			u.(*sdf.UnionSDF2).SetMin(sdf.PolyMin(0.2))
 			return u, nil
 		}},
+		{name: "Union2D+RoundMin", mk2: func() (sdf.SDF2, error) {
+			u := sdf.Union2D(box2(), sdf.Transform2D(circle(), sdf.Translate2d(v2.Vec{X: 1})))
+			u.(*sdf.UnionSDF2).SetMin(sdf.RoundMin(0.4))
+			return u, nil
+		}},
+		{name: "Union2D+ChamferMin", mk2: func() (sdf.SDF2, error) {
+			u := sdf.Union2D(box2(), sdf.Transform2D(circle(), sdf.Translate2d(v2.Vec{X: 1})))
+			u.(*sdf.UnionSDF2).SetMin(sdf.ChamferMin(0.4))
+			return u, nil
+		}},
+		{name: "Union2D+ExpMin", mk2: func() (sdf.SDF2, error) {
+			u := sdf.Union2D(box2(), sdf.Transform2D(circle(), sdf.Translate2d(v2.Vec{X: 1})))
+			u.(*sdf.UnionSDF2).SetMin(sdf.ExpMin(8))
+			return u, nil
+		}},
+		{name: "Union2D+PowMin", mk2: func() (sdf.SDF2, error) {
+			u := sdf.Union2D(box2(), sdf.Transform2D(circle(), sdf.Translate2d(v2.Vec{X: 1})))
+			u.(*sdf.UnionSDF2).SetMin(sdf.PowMin(8))
+			return u, nil
+		}},
+		{name: "Cache2D(Cache2D) both in use", mk2: func() (sdf.SDF2, error) {
+			// a cached shape cached again (a library function that caches its argument, given an already cached one);
+			// both objects stay in use
+			c1 := sdf.Cache2D(must2(sdf.Polygon2D(poly)))
+			c2 := sdf.Cache2D(c1)
+			return sdf.Union2D(c2, sdf.Transform2D(c1, sdf.Translate2d(v2.Vec{X: 0.37, Y: 0.21}))), nil
+		}},
 		{name: "Difference2D", mk2: func() (sdf.SDF2, error) { return sdf.Difference2D(box2(), circle()), nil }},
 		{name: "Intersect2D", mk2: func() (sdf.SDF2, error) { return sdf.Intersect2D(box2(), circle()), nil }},
 		{name: "Offset2D", mk2: func() (sdf.SDF2, error) { return sdf.Offset2D(box2(), 0.2), nil }},
@@ -205,6 +232,23 @@ func shapeList() []shapeCtor {
 			}
 			return obj.ImportTriMesh(ts, 8, 3, 5), nil
 		}},
+		{name: "ImportTriMesh(long prism 20)", mk3: func() (sdf.SDF3, error) { return obj.ImportTriMesh(longPrism(20), 20, 3, 5), nil }},
+		{name: "ImportTriMesh(long prism 12)", mk3: func() (sdf.SDF3, error) { return obj.ImportTriMesh(longPrism(12), 8, 3, 5), nil }},
+		{name: "Union3D+RoundMin", mk3: func() (sdf.SDF3, error) {
+			u := sdf.Union3D(box3(), sdf.Transform3D(must3(sdf.Sphere3D(1)), sdf.Translate3d(v3.Vec{X: 1})))
+			u.(*sdf.UnionSDF3).SetMin(sdf.RoundMin(0.4))
+			return u, nil
+		}},
+		{name: "RotateUnion3D+RoundMin", mk3: func() (sdf.SDF3, error) {
+			u := sdf.RotateUnion3D(sdf.Transform3D(box3(), sdf.Translate3d(v3.Vec{X: 1.2})), 5, sdf.RotateZ(sdf.Tau/5))
+			u.(*sdf.RotateUnionSDF3).SetMin(sdf.RoundMin(0.3))
+			return u, nil
+		}},
+		{name: "Array3D+ChamferMin", mk3: func() (sdf.SDF3, error) {
+			u := sdf.Array3D(must3(sdf.Sphere3D(1)), v3i.Vec{X: 3, Y: 2, Z: 1}, v3.Vec{X: 1.6, Y: 1.7, Z: 1})
+			u.(*sdf.ArraySDF3).SetMin(sdf.ChamferMin(0.3))
+			return u, nil
+		}},
 		{name: "ImportSTL", mk3: func() (sdf.SDF3, error) { return obj.ImportSTL(repoFile("teapot.stl"), 3, 3, 5) }},
 		{name: "Bolt", mk3: func() (sdf.SDF3, error) {
 			return obj.Bolt(&obj.BoltParms{Thread: "M4x0.7", Style: "hex", TotalLength: 8, ShankLength: 2})
@@ -220,6 +264,28 @@ func shapeList() []shapeCtor {
 		{name: "Hex3D", mk3: func() (sdf.SDF3, error) { return obj.Hex3D(1, 1, 0.1) }},
 	}
 	return L
+}
+
+// longPrism: a closed n-sided prism about the z-axis, 20 times longer than wide (2n side triangles that span the
+// whole mesh, n small ones on each end), and a small cube beside each end.
+func longPrism(n int) []*sdf.Triangle3 {
+	const r, hz = 2.0, 20.0
+	ring := func(i int, z float64) v3.Vec {
+		a := sdf.Tau * float64(i%n) / float64(n)
+		return v3.Vec{X: r * math.Cos(a), Y: r * math.Sin(a), Z: z}
+	}
+	var m []*sdf.Triangle3
+	for i := 0; i < n; i++ {
+		a0, a1 := ring(i, -hz), ring(i+1, -hz)
+		b0, b1 := ring(i, hz), ring(i+1, hz)
+		m = append(m, &sdf.Triangle3{a0, a1, b1}, &sdf.Triangle3{a0, b1, b0},
+			&sdf.Triangle3{v3.Vec{Z: -hz}, a1, a0}, &sdf.Triangle3{v3.Vec{Z: hz}, b0, b1})
+	}
+	cube, _ := sdf.Box3D(v3.Vec{X: 1, Y: 1, Z: 1}, 0)
+	for _, z := range []float64{-15, 15} {
+		m = append(m, render.ToTriangles(sdf.Transform3D(cube, sdf.Translate3d(v3.Vec{X: 6, Z: z})), render.NewMarchingCubesOctree(4))...)
+	}
+	return m
 }
 
 // ---- deep digest of reachable state -------------------------------------------------
